@@ -249,6 +249,16 @@ Proof.
     split; [lia|]. split; [reflexivity|]. repeat split; assumption.
 Qed.
 
+(* whatever sizes are passed next to module=, the state reports the module's sizes *)
+Theorem of_module_sizes_lemma k nv nh na m H no :
+  wfb H -> assoc m (b_nets H) = Some no -> (k = Mixed -> no_kind no = Purif) ->
+  let r := of_module_args k nv nh na m H in
+  exists st, snd r = Some st /\ bs_am st = m /\ state_sizes (fst r) st = net_sizes H m.
+Proof.
+  intros Hwf Hm Hk. destruct (of_module_lemma k m H no Hwf Hm Hk) as [st [A [_ [B [_ [C _]]]]]]. cbv zeta in *.
+  exists st. unfold of_module_args. split; [exact A|]. split; [exact B|]. unfold state_sizes. rewrite B. exact C.
+Qed.
+
 (* DensityMatrix(module=BinaryRBM) is an error in the code (no num_aux attribute) *)
 Lemma of_module_mixed_needs_purif m H no :
   assoc m (b_nets H) = Some no -> no_kind no = Binary -> snd (of_module Mixed m H) = None.
@@ -472,6 +482,30 @@ Proof.
               ltac:(unfold Rdiv; rewrite !Rmult_0_l; reflexivity) M1 ML V1 VL) as [U1 UL].
   destruct (map2_zero (fun pi ui => pi - ad_lr c * ui) ab _ na ltac:(lra) Hz Hl U1 UL) as [P1 PL].
   split; [exact P1|]. split; [exact PL|]. unfold adam_Q; simpl. repeat split; assumption.
+Qed.
+
+(* With eps > 0 and 0 <= beta < 1 no denominator of the Adam update vanishes (so the zero of the unguarded theorem
+   is not an artefact of 0 * / 0 = 0 in R; torch would give NaN for eps = 0 on a quiescent coordinate). *)
+Lemma npow_R b n : npow ROps b n = b ^ n.
+Proof. induction n as [|n IH]; simpl; [reflexivity | rewrite IH; reflexivity]. Qed.
+
+Lemma pow_S_lt_1 b t : 0 <= b < 1 -> 0 <= b ^ (S t) < 1.
+Proof.
+  intros [H0 H1]. induction t as [|t IH]; [simpl; lra|].
+  change (b ^ S (S t)) with (b * b ^ S t). destruct IH as [I0 I1]. split; nra.
+Qed.
+
+Theorem adam_denominators_nonzero c t v :
+  0 < ad_eps c -> 0 <= ad_b1 c < 1 -> 0 <= ad_b2 c < 1 ->
+  1 - npow ROps (ad_b1 c) (S t) <> 0 /\ 1 - npow ROps (ad_b2 c) (S t) <> 0 /\
+  sqrt (v / (1 - npow ROps (ad_b2 c) (S t))) + ad_eps c <> 0.
+Proof.
+  intros He H1 H2. rewrite !(npow_R (ad_b1 c)), !(npow_R (ad_b2 c)).
+  pose proof (pow_S_lt_1 _ t H1) as P1. pose proof (pow_S_lt_1 _ t H2) as P2.
+  pose proof (sqrt_pos (v / (1 - ad_b2 c ^ S t))) as Hs.
+  remember (sqrt (v / (1 - ad_b2 c ^ S t))) as sq. clear Heqsq.
+  remember (ad_b1 c ^ S t) as p1. remember (ad_b2 c ^ S t) as p2. clear Heqp1 Heqp2.
+  destruct P1, P2. repeat split; intros Hc; lra.
 Qed.
 
 (* non-vacuity: the initial optimizer states satisfy the invariants *)
